@@ -96,6 +96,7 @@ def run(ctx):
     c10_3(ctx, bc, bi_)
     c10_derived(ctx)
     c10_4(ctx)
+    c10_1b(ctx)
 
 
 def _rejected_returns(b):
@@ -330,3 +331,19 @@ def c10_4(ctx):
         s = show(strip_all(b.local_term(tc[0]))) if tc else ""
         ctx.ob(R, "finalize:interned", "interned_vbytes" in s and "cost_per_byte" in s and "block_cost" in s,
                "finalize returns interned_vbytes(root) * cost_per_byte + block_cost (the consensus formula, C04.4)", found=s[:200])
+
+
+def c10_1b(ctx):
+    """The compressed builder's incremental Serializer remembers the NodePtrs it has seen (its back-reference table survives
+    Serializer::restore).  Rolling the Allocator back would let later bundles reuse those NodePtr values for different
+    trees, which the serializer would then emit as back-references to the *old* content: the generator would no longer
+    decode to the accepted spends.  So no method of BlockBuilder may call Allocator::restore_checkpoint; the interned
+    builder (which re-interns at finalize) is the only builder allowed to."""
+    R = "C10.1"
+    fb = ctx.fb
+    callers = sorted(p for p, f in fb.fns.items()
+                     if any((c.get("res") or c.get("def") or "").endswith("Allocator::restore_checkpoint") for c in f.e.get("calls", [])))
+    bad = [p for p in callers if p.startswith(CB + "::") or p.startswith("chia_consensus::build_compressed_block::")]
+    ctx.ob(R, "no-allocator-rollback:compressed", not bad,
+           "BlockBuilder never rolls the Allocator back while its incremental Serializer is live", found=bad or None)
+    ctx.floor(R, "restore_checkpoint callers seen in the workspace (rule is live)", len(callers), 1)
